@@ -20,7 +20,12 @@ class Timer:
         self.expire_time = self.start_time + timeout
         self.auto_restart = auto_restart
         self.stopped = False
-        self.args = args if args is not None else []
+        if args is None:
+            args = []
+        elif not isinstance(args, (list, tuple)):
+            # a single scalar argument, as passed by TCPPacketGenerator
+            args = [args]
+        self.args = args
         self.kwargs = kwargs if kwargs is not None else {}
         self.proc = env.process(self.run(env))
 
